@@ -23,7 +23,7 @@ m = {
     'hooks': {
         'guard': 'REPLICAT_VERIF',
         'enable': 'none needed: all instrumentation is harness-side (sys.monitoring, audit hooks, wrapped backends, module-attribute substitution); the guard variable is reserved and unused',
-        'baseline_off_cmd': 'cd /repo && /opt/veriftools/pyvenv/bin/python -m pytest -ra -q -p no:cacheprovider --timeout=900 --continue-on-collection-errors',
+        'baseline_off_cmd': 'cd /repo && /venv/bin/python -m pytest -ra -q -p no:cacheprovider --timeout=900 --continue-on-collection-errors',
         'source_commits': [],
         'add_only': True,
     },
